@@ -321,6 +321,10 @@ func (x *Explorer) initLiveness() {
 				add(in.Cond, b.Index)
 			case *ssa.Store:
 				add(in.Val, b.Index)
+			case *ssa.Return:
+				for _, rv := range returnResults(in) {
+					add(rv, b.Index)
+				}
 			}
 		}
 		for _, s := range b.Succs {
